@@ -392,12 +392,12 @@ func runSweep(c *Ctx, spec *propSpec, seed int64) {
 		}
 	}
 	c.R.Extra["mutation_sweep"] = map[string]interface{}{
-		"note":       "informational: AST mutants of the anchored files analysed in memory; 'killed' = the check reports the mutant, 'survived' = it stays silent (the mutant is equivalent, lies outside the property, or is a gap), 'invalid' = does not type-check",
-		"generated":  len(muts),
-		"killed":     killed,
-		"survived":   survived,
-		"invalid":    invalid,
-		"survivors":  survivors,
-		"files":      files,
+		"note":      "informational: AST mutants of the anchored files analysed in memory; 'killed' = the check reports the mutant, 'survived' = it stays silent (the mutant is equivalent, lies outside the property, or is a gap), 'invalid' = does not type-check",
+		"generated": len(muts),
+		"killed":    killed,
+		"survived":  survived,
+		"invalid":   invalid,
+		"survivors": survivors,
+		"files":     files,
 	}
 }
